@@ -27,7 +27,10 @@ Inductive case :=
 | CListen (s : hseg) (frames : list hframe) (accepted : bool)
 (* an established connection receives a RST (sequence number inside the receive window or far
    outside); frames emitted in response and the endpoint state afterwards (4 connected, 6 error) *)
-| CEstRst (inWindow : bool) (s : hseg) (frames : list hframe) (estAfter : Z).
+| CEstRst (inWindow : bool) (s : hseg) (frames : list hframe) (estAfter : Z)
+(* an established connection with keepalive enabled and a silent peer: everything it emitted until
+   it gave up, and the endpoint state afterwards *)
+| CKeepalive (count iss irs : Z) (frames : list hframe) (estAfter : Z).
 
 (* ---------------------------------------------------------------- equality on observations *)
 Fixpoint zl_eqb (a b : list Z) : bool :=
@@ -154,6 +157,16 @@ Definition corr (c : case) : Z :=
       | LIgnore => if hfs_eqb frames [] && negb acc then 0 else 1
       | _ => 2
       end
+  | CKeepalive count iss irs frames est =>
+      (* connect.go keepaliveTimerExpired: [count] probes (a pure ACK numbered sndNxt-1), then the
+         connection is reset: RST|ACK numbered sndUna, acknowledging rcvNxt, window 0; error state.
+         Keepalive is not part of Model.Tcp: this is the expected behaviour written out. *)
+      let probe_ok := fun f => (hf_flags f =? 16) && (hf_seq f =? u32 iss) && (hf_ack f =? u32 (irs + 1)) in
+      let rst_ok := fun f => (hf_flags f =? 20) && (hf_seq f =? u32 (iss + 1)) && (hf_ack f =? u32 (irs + 1)) && (hf_wnd f =? 0) in
+      if (Z.of_nat (length frames) =? count + 1)
+         && forallb probe_ok (firstn (Z.to_nat count) frames)
+         && forallb rst_ok (skipn (Z.to_nat count) frames)
+         && (est =? estError) then 0 else 1
   | CEstRst inw s frames est =>
       (* Model.Tcp.handleSegment: acceptable RST -> abortOnReset (no frame, error state);
          otherwise ignored (Proofs/TcpRstP.v) *)
@@ -244,6 +257,7 @@ Definition spec (c : case) : Z :=
       else if has (hs_flags s) fRst && negb (hfs_eqb frames []) then 1   (* a reset is never answered *)
       else 0
   | CEstRst _ s frames _ => if hfs_eqb frames [] then 0 else 1     (* a reset is never answered *)
+  | CKeepalive _ _ _ _ _ => 0     (* no clause of the property text; judged by the correspondence only *)
   end.
 
 Definition tag (c : case) : Z :=
@@ -254,6 +268,7 @@ Definition tag (c : case) : Z :=
   | CStray s _ => if has (hs_flags s) fRst then 0 else 7
   | CListen _ _ _ => 8
   | CEstRst inw _ _ _ => if inw then 9 else 10
+  | CKeepalive _ _ _ _ _ => 11
   end.
 
 Definition judge (c : case) : list Z := [corr c; spec c; tag c].
